@@ -196,6 +196,8 @@ def rule_cli(ck: Check, repo: Repo) -> None:
                 return "output"
             if t == "output is None":
                 return ("not", "output")
+            if t == "output is not None":
+                return "output"
             return None
 
         def raises(self, text, call, it):
@@ -363,7 +365,16 @@ def rule_transfer_failures(ck: Check, repo: Repo, rid: str = "R4") -> None:
     esc = Escape(cg)
     q = f"{DL}.download_license"
     cmd = repo.commands()["download"]
-    handlers = sorted({ast.unparse(e) for n in ast.walk(cmd) if isinstance(n, ast.Try) for h in n.handlers if h.type is not None
+    # the per-licence handlers: in the command, or in a helper of the command's module that the confirmed tree does not have
+    # (the loop body moved into `_download_one`) and that the command calls
+    from ..canon import ref_table as _rt
+    _known = set(_rt().get("__functions__", []))
+    _cq = repo.qualname_of(cmd)
+    _mod = _cq.rsplit(".", 1)[0]
+    _called = {c.func.id for c in ast.walk(cmd) if isinstance(c, ast.Call) and isinstance(c.func, ast.Name)}
+    _scopes = [cmd] + [f for q_, f in repo.functions.items() if _known and q_ not in _known and q_.rsplit(".", 1)[0] == _mod
+                       and q_.rsplit(".", 1)[1] in _called]
+    handlers = sorted({ast.unparse(e) for sc in _scopes for n in ast.walk(sc) if isinstance(n, ast.Try) for h in n.handlers if h.type is not None
                        for e in (h.type.elts if isinstance(h.type, ast.Tuple) else [h.type])})
     full = {"URLError": "urllib.error.URLError", "FileExistsError": "builtins.FileExistsError", "FileNotFoundError": "builtins.FileNotFoundError",
             "OSError": "builtins.OSError", "Exception": "builtins.Exception", "HTTPException": "http.client.HTTPException"}
